@@ -1,6 +1,13 @@
 import RTV.Lemmas.ChoiceDecA
+import RTV.Lemmas.ChoiceDecA2
 import RTV.Lemmas.ChoiceDecB
+import RTV.Lemmas.ChoiceDecB2
+import RTV.Lemmas.ChoiceDecB3
+import RTV.Lemmas.ChoiceDecB4
 import RTV.Lemmas.ChoiceDecC
+import RTV.Lemmas.ChoiceDecC2
+import RTV.Lemmas.ChoiceDecC3
+import RTV.Lemmas.ChoiceDecC4
 import RTV.Lemmas.ChoiceScore
 /-!
 # C20 — yes/no answers keep their polarity
@@ -10,10 +17,16 @@ Theorems about the model `RTV.Choice` (mirrors `ChoiceExtractor.__tokenize / mat
 regenerated data: the True/False regexes *as rewritten by the working tree's own `remove_unicode_matches`*, the
 tokenizer regex, the `regex` engine's tables, the `emoji` table and `str.lower` / `str.isspace`.
 
-The alternatives are a finite language: `alts b` enumerates it from the regenerated RE (`enumLang`; `\s+` as its
-one-blank instance; the pipeline also runs the three-blank instance).  The statements below quantify over all of it
-× {lower, UPPER, Title} × the contexts of `contexts`; the correspondence runs the same families (and four more
-contexts) on `recognize_boolean`.
+The alternatives are a finite language: `alts b` enumerates ALL of it from the regenerated RE (`enumLang`; `\s+` as
+its one-blank instance; the pipeline also runs the three-blank instance) — the words, the emoji (one code point each)
+and the 25 emoji + skin-tone sequences (two code points: 👍 👌 × 5 modifiers, 👎 ✋ 🖐 × 5 modifiers); `alts_complete`
+says that nothing of the language is left out.  The statements below quantify over all of it × {lower, UPPER, Title}
+× the contexts of `contexts`; the correspondence runs the same families (and four more contexts) on
+`recognize_boolean`.
+
+What is a SAMPLE and what is universal: `no_match_nothing` (neutral clause) and `score_unit_interval` hold for every
+text / every token list; `neutral_nothing_sample` is a pool of 21 strings; the pair statements are exhaustive over the
+alternatives but fix the separators they name.
 
 History: before /repo commits 863060d4d and a65f410e1 the rewrite destroyed the surrogate-pair / 4-digit escapes
 (`👍`, `✋` unreachable) and the span was taken from the first textual occurrence of the matched text.  Regression
@@ -23,49 +36,99 @@ theorems about the pre-fix functions are kept at the end; the correspondence kee
 namespace RTV.C20
 open RTV.Choice RTV.Re RTV.Py
 
-/-- C20 (affirmative / negative): every listed alternative, in lower / UPPER / Title case, alone or inside each of the
-contexts, yields exactly one entity — spanning exactly that expression, with its own polarity. -/
+/-- C20 (affirmative / negative): every listed alternative — word, emoji, emoji + skin-tone modifier — in lower /
+UPPER / Title case, alone or inside each of the contexts, yields exactly one entity — spanning exactly that
+expression, with its own polarity (and the parser's default score). -/
 theorem alts_polarity (b : Bool) : ∀ w ∈ alts b, ∀ v ∈ variants w, ∀ c ∈ contexts,
     recognise genEnv (c.1 ++ v ++ c.2) =
-      some [⟨c.1.length, (c.1.length : Int) + v.length - 1, v, b, true⟩] := by
+      some [⟨c.1.length, (c.1.length : Int) + v.length - 1, v, b, Score.zero⟩] := by
   intro w hw v hv c hc
   have h : polarityOK genEnv b = true := by
     rw [← fastEnv_eq]; cases b
     · exact polarity_false_fast
     · exact polarity_true_fast
-  unfold polarityOK at h
+  unfold polarityOK polarityOn at h
   have := List.all_eq_true.1 (List.all_eq_true.1 (List.all_eq_true.1 h w hw) v hv) c hc
   simpa [expected] using this
 
-/-- the enumeration is the resource's list, emoji included (👍 U+1F44D, 👌 U+1F44C; 👎 U+1F44E, ✋ U+270B, 🖐 U+1F590) -/
+/-- the enumeration is the resource's list: the words, the emoji (👍 U+1F44D, 👌 U+1F44C; 👎 U+1F44E, ✋ U+270B,
+🖐 U+1F590), and each emoji followed by each skin-tone modifier U+1F3FB … U+1F3FF (10 + 15 sequences) -/
 theorem alts_listed :
     alts true = [ofString "true", ofString "yes", ofString "yep", ofString "yup", ofString "yeah", ofString "y",
-      ofString "sure", ofString "ok", ofString "agree", [128077], [128076]] ∧
+      ofString "sure", ofString "ok", ofString "agree",
+      [128077], [128077, 127995], [128077, 127996], [128077, 127997], [128077, 127998], [128077, 127999],
+      [128076], [128076, 127995], [128076, 127996], [128076, 127997], [128076, 127998], [128076, 127999]] ∧
     alts false = [ofString "false", ofString "nope", ofString "nop", ofString "no", ofString "not ok",
-      ofString "disagree", [128078], [9995], [128400]] := by decide +kernel
+      ofString "disagree",
+      [128078], [128078, 127995], [128078, 127996], [128078, 127997], [128078, 127998], [128078, 127999],
+      [9995], [9995, 127995], [9995, 127996], [9995, 127997], [9995, 127998], [9995, 127999],
+      [128400], [128400, 127995], [128400, 127996], [128400, 127997], [128400, 127998], [128400, 127999]] := by
+  decide +kernel
 
-/-- C20 (neutral): texts of the pool — empty, blank, words that merely contain an alternative (`nobody`, `okay`,
-`yesterday`, `notok`), other emoji — yield nothing. -/
-theorem neutral_nothing : ∀ q ∈ neutralPool, recognise genEnv q = some [] := by
+/-- … and it is every member of the two regexes' languages (both finite): `alts` drops nothing -/
+theorem alts_complete : ∀ b, ∃ l, langOf b = some l ∧ ∀ w ∈ l, plausible w = true := by
+  intro b
+  have h := alts_complete_fast
+  simp only [Bool.and_eq_true] at h
+  have hb : altsComplete b = true := by cases b; exact h.2; exact h.1
+  unfold altsComplete at hb
+  simp only [Bool.and_eq_true, List.all_eq_true] at hb
+  cases hl : langOf b with
+  | none => simp [hl] at hb
+  | some l => exact ⟨l, rfl, by simpa [hl] using hb.2⟩
+
+/-- C20 (neutral, UNIVERSAL — every environment, every text): when neither regex has a non-empty match in the
+lower-cased text (`noMatch`: what "contains none of the listed expressions" is to the code, `regex.finditer` over
+`trimmed_source`), nothing is reported and nothing raises.  Not proved: that `noMatch` coincides with "no alternative
+stands as a token of the text" — that would need a soundness theorem for the matcher against `enumLang`; the sample
+below and the pipeline's neutral family stand for it. -/
+theorem no_match_nothing (E : Env) (q : Str) (h : noMatch E q = true) : recognise E q = some [] := by
+  unfold recognise; rw [extract_noMatch E q h]; rfl
+
+/-- C20 (neutral, SAMPLE of 21 texts): empty, blank, words that merely contain an alternative (`nobody`, `okay`,
+`yesterday`, `notok`), another emoji, a lone skin-tone modifier, a modifier after another emoji or inside a word —
+each satisfies the hypothesis of `no_match_nothing` on the regenerated regexes, and yields nothing. -/
+theorem neutral_nothing_sample : ∀ q ∈ neutralPool, noMatch genEnv q = true ∧ recognise genEnv q = some [] := by
   intro q hq
   have h : neutralOK genEnv = true := by rw [← fastEnv_eq]; exact neutral_fast
-  simpa using List.all_eq_true.1 h q hq
+  unfold neutralOK at h
+  have := List.all_eq_true.1 h q hq
+  simp only [Bool.and_eq_true, beq_iff_eq] at this
+  exact ⟨this.2, this.1⟩
 
-/-- C20 (both polarities): for every affirmative `t`, negative `f` and separator, in both orders, exactly one entity
-is reported, its text is a listed expression of the polarity it reports, and its span is where that text stands. -/
-theorem both_polarities_one_entity : ∀ t ∈ alts true, ∀ f ∈ alts false, ∀ sp ∈ seps,
+/-- C20 (both polarities, words and bare emoji): for every affirmative `t`, negative `f` and separator (blank;
+comma + blank), in both orders, exactly one entity is reported, its text is a listed expression of the polarity it
+reports, and its span is where that text stands. -/
+theorem both_polarities_one_entity : ∀ t ∈ altsCore true, ∀ f ∈ altsCore false, ∀ sp ∈ seps,
     oneListed (t ++ sp ++ f) (recognise genEnv (t ++ sp ++ f)) = true ∧
     oneListed (f ++ sp ++ t) (recognise genEnv (f ++ sp ++ t)) = true := by
   intro t ht f hf sp hsp
   have h : bothOK genEnv = true := by rw [← fastEnv_eq]; exact both_fast
   unfold bothOK at h
   have := List.all_eq_true.1 (List.all_eq_true.1 (List.all_eq_true.1 h t ht) f hf) sp hsp
-  simpa using this
+  simpa [bothPair] using this
 
-/-- C20 (score): whatever is reported carries the parser's default score `0.0` — inside `[0, 1]` — for every
-environment and every query (`ChoiceParser.parse` reads the score of a freshly built `ChoiceExtractDataResult`). -/
-theorem reported_score_unit_interval (E : Env) (q : Str) (rs : List MR) (h : recognise E q = some rs) :
-    ∀ r ∈ rs, r.scoreZero = true := by
+/-- C20 (both polarities, EVERY alternative incl. the skin-toned emoji): for every affirmative `t` and negative `f`
+separated by one blank, in both orders, the same. -/
+theorem both_polarities_one_entity_all : ∀ t ∈ alts true, ∀ f ∈ alts false,
+    oneListed (t ++ [32] ++ f) (recognise genEnv (t ++ [32] ++ f)) = true ∧
+    oneListed (f ++ [32] ++ t) (recognise genEnv (f ++ [32] ++ t)) = true := by
+  intro t ht f hf
+  have h1 : bothOK genEnv = true := by rw [← fastEnv_eq]; exact both_fast
+  have h2 : bothSkinOn genEnv (alts true) = true := by
+    rw [← fastEnv_eq]
+    exact bothSkinOn_take_drop fastEnv (alts true) 10 both_skin_a_fast
+      (bothSkinOn_take_drop fastEnv ((alts true).drop 10) 5 both_skin_b_fast both_skin_c_fast)
+  have := both_all genEnv h1 h2 t ht f hf
+  simpa [bothPair] using this
+
+/-- C20 (score, model of the parser — holds BY THE SHAPE OF THE CODE, not a computation): whatever is reported carries
+the default score of the `ChoiceExtractDataResult` that `ChoiceParser.parse` builds anew (`parserScore`), i.e. `0.0` —
+inside `[0, 1]` — for every environment and every query.  The tie to the code is the correspondence (`bool.rec`
+compares the reported score with `resolution['score']` on every pipeline query); the statement about the score
+COMPUTATION is `score_unit_interval`. -/
+theorem reported_score_is_parser_default (E : Env) (q : Str) (rs : List MR) (h : recognise E q = some rs) :
+    ∀ r ∈ rs, r.score = Score.zero := by
   unfold recognise at h
   cases he : extract E q with
   | none =>
@@ -87,16 +150,22 @@ theorem score_unit_interval (source match_ : List Str) (st : Int) (hst : 0 ≤ s
     ∃ sc, matchValue (-1) source match_ st = some sc ∧ 0 < sc.den ∧ 0 ≤ sc.num ∧ sc.num ≤ sc.den :=
   matchValue_unit_interval source match_ st hst
 
-/-- C20 (several expressions of one polarity): for every two listed expressions of the same polarity exactly one
-entity is reported, a listed expression of that polarity at its own place. -/
+/-- C20 (several expressions of one polarity): for every two listed expressions of the same polarity — EVERY
+alternative, skin-toned emoji included, in both orders — exactly one entity is reported, a listed expression of that
+polarity at its own place. -/
 theorem same_polarity_one_entity : ∀ b ∈ [true, false], ∀ w1 ∈ alts b, ∀ w2 ∈ alts b,
     oneListed (w1 ++ [32] ++ w2) (recognise genEnv (w1 ++ [32] ++ w2)) = true := by
-  intro b hb w1 h1 w2 h2
-  have h : samePolarityOK genEnv = true := by rw [← fastEnv_eq]; exact same_polarity_fast
-  unfold samePolarityOK at h
-  exact List.all_eq_true.1 (List.all_eq_true.1 (List.all_eq_true.1 h b hb) w1 h1) w2 h2
+  intro b _ w1 h1 w2 h2
+  have hs : samePolarityOK genEnv = true := by rw [← fastEnv_eq]; exact same_polarity_fast
+  have hk : sameSkinOn genEnv b (alts b) = true := by
+    rw [← fastEnv_eq]
+    cases b
+    · exact sameSkinOn_take_drop fastEnv false (alts false) 12 same_skin_false_a_fast same_skin_false_b_fast
+    · exact same_skin_true_fast
+  exact same_all genEnv b hs hk w1 h1 w2 h2
 
-/-- C20 (repeated expression, `no no`, `yes yes yes`): one entity, the listed expression. -/
+/-- C20 (repeated expression, `no no`, `yes yes yes`, `👍🏽 👍🏽`): one entity, the listed expression — every
+alternative. -/
 theorem repeated_expression_one_entity : ∀ b ∈ [true, false], ∀ w ∈ alts b,
     oneListed (w ++ [32] ++ w) (recognise genEnv (w ++ [32] ++ w)) = true ∧
     oneListed (w ++ [32] ++ w ++ [32] ++ w) (recognise genEnv (w ++ [32] ++ w ++ [32] ++ w)) = true := by
@@ -122,7 +191,7 @@ theorem prefix_matchValue_can_exceed_one :
 `match_value`, which `ChoiceModel.parse` turned into an UnboundLocalError; now it is the entity `not ok`. -/
 theorem prefix_not_ok_not_sure_raised :
     recognise genEnvPreFix2 (ofString "not ok not sure") = none ∧
-    recognise genEnv (ofString "not ok not sure") = some [⟨0, 5, ofString "not ok", false, true⟩] := by
+    recognise genEnv (ofString "not ok not sure") = some [⟨0, 5, ofString "not ok", false, Score.zero⟩] := by
   rw [← fastEnv_eq, ← fastEnvPreFix2_eq]; decide +kernel
 
 
@@ -136,8 +205,8 @@ theorem prefix_rewrite_loses_thumbs_up :
 /-- REGRESSION (`first-occurrence-span`, fixed by /repo a65f410e1): with `trimmed_source.index(match)` the entity of
 `nobody said no` was placed on the `no` of `nobody`; with the match's own offset it is at `[12, 13]`. -/
 theorem prefix_first_occurrence_span :
-    recognise genEnvPreFix (ofString "nobody said no") = some [⟨0, 1, ofString "no", false, true⟩] ∧
-    recognise genEnv (ofString "nobody said no") = some [⟨12, 13, ofString "no", false, true⟩] := by
+    recognise genEnvPreFix (ofString "nobody said no") = some [⟨0, 1, ofString "no", false, Score.zero⟩] ∧
+    recognise genEnv (ofString "nobody said no") = some [⟨12, 13, ofString "no", false, Score.zero⟩] := by
   rw [← fastEnv_eq, ← fastEnvPreFix_eq]; decide +kernel
 
 end RTV.C20
